@@ -1,12 +1,13 @@
 #!/usr/bin/env python3
-"""tools/seeded_table.py [min_k] : markdown table of the seeded changes filed under /verif/seeded (for DESIGN.md section 8)."""
+"""tools/seeded_table.py [min_k [max_k]] : markdown table of the seeded changes filed under /verif/seeded (for DESIGN.md section 8)."""
 import glob, json, os, sys
 mink = int(sys.argv[1]) if len(sys.argv) > 1 else 1
+maxk = int(sys.argv[2]) if len(sys.argv) > 2 else 99
 print("| id | file | change | needs to manifest | quick check(s) run -> detected |")
 print("|---|---|---|---|---|")
 for d in sorted(glob.glob("/verif/seeded/C*-*")):
     k = int(d.rsplit("-", 1)[1])
-    if k < mink:
+    if k < mink or k > maxk:
         continue
     m = json.load(open(d + "/meta.json"))
     det = m.get("detected", {})
